@@ -169,6 +169,33 @@ Example C09_example_early :
 Proof. exact ex_early_accepted. Qed.
 Print Assumptions C09_example_early.
 
+(* ---- the response table and the hint table as data structures -----------------------------------------
+   MTProto.responseChannels / expectedTypes (internal/utils/sync_stuff.go: Go maps behind a RWMutex) are an
+   association list and a key list in Client/Model.v.  Client/Table.v: after ANY sequence of Add / Delete the
+   list answers every Get (Has) like the finite map the same operations build - Add overwrites, Delete removes,
+   later operations win -, and Keys lists exactly the keys present.  The executable [tab_run] / [set_run] are
+   replayed against the real types on random operation sequences, and the real types are driven from several
+   goroutines at once with a per-key linearizability check (harness/root/cmd/c09 table). *)
+From MTV Require Import Client.Table.
+
+Theorem C09_table_is_a_map : forall ops j, lookup j (tab_run ops) = fm_run ops j.
+Proof. exact tab_ops_refine. Qed.
+Print Assumptions C09_table_is_a_map.
+
+Theorem C09_table_keys : forall ops i, In i (map fst (tab_run ops)) <-> fm_run ops i <> None.
+Proof. exact tab_keys. Qed.
+Print Assumptions C09_table_keys.
+
+Theorem C09_hints_are_a_set : forall ops j, memz j (set_run ops) = fs_run ops j.
+Proof. exact set_ops_refine. Qed.
+Print Assumptions C09_hints_are_a_set.
+
+Example C09_table_example :
+  let ops := [TAdd 40 (0, 1)%nat; TAdd 44 (1, 1)%nat; TAdd 40 (2, 5)%nat; TDel 44; TDel 48] in
+  lookup 40 (tab_run ops) = Some (2, 5)%nat /\ lookup 44 (tab_run ops) = None /\ fm_run ops 40 = Some (2, 5)%nat.
+Proof. vm_compute. repeat split; reflexivity. Qed.
+Print Assumptions C09_table_example.
+
 (* ---- the key under which the receive loop looks up a message's decoder hints (mtproto.go reqMsgIDOf) ----
    model and proofs: TL/ReqId.v.  The hints a caller registered sit under the id of ITS request, so an answer finds
    them exactly when this function returns that id: for a result, plain or packed as a whole, it is the req_msg_id the
